@@ -48,6 +48,13 @@ func judge(sc tmh.Script, obs *tmh.Obs, x *vsched.Exec) (string, *vsched.Violati
 				return "v", &vsched.Violation{Sig: "started-early", Detail: fmt.Sprintf("future #%d scheduled at +%v with delay %v was started at +%v, %v too early", i, f.CallAt, f.Delay, s, due(f)-s) + ctxt}
 			}
 		}
+		if sc.MaxLate > 0 {
+			for _, s := range f.Starts {
+				if s-due(f) > sc.MaxLate {
+					return "v", &vsched.Violation{Sig: "started-late", Detail: fmt.Sprintf("future #%d (due at +%v) was started at +%v, %v late, although every callback returns at once: a Cancel of another future disturbed it", i, due(f), s, s-due(f)) + ctxt}
+				}
+			}
+		}
 		earlyCancel := false
 		for _, c := range f.CancelRets {
 			if c < due(f) {
@@ -122,6 +129,28 @@ func script(delays []time.Duration, plans string, second bool, pool int, busy ti
 		sc.Threads = [][]tmh.Ev{append(calls, cancels...)}
 	}
 	return sc
+}
+
+func popcount(x int) int {
+	n := 0
+	for ; x != 0; x &= x - 1 {
+		n++
+	}
+	return n
+}
+
+func tuplesPerm(xs []time.Duration) [][]time.Duration {
+	if len(xs) <= 1 {
+		return [][]time.Duration{append([]time.Duration{}, xs...)}
+	}
+	var r [][]time.Duration
+	for i := range xs {
+		rest := append(append([]time.Duration{}, xs[:i]...), xs[i+1:]...)
+		for _, p := range tuplesPerm(rest) {
+			r = append(r, append([]time.Duration{xs[i]}, p...))
+		}
+	}
+	return r
 }
 
 func tuples[T any](alpha []T, n int) [][]T {
@@ -200,6 +229,36 @@ func main() {
 				if n == 4 {
 					jobs = append(jobs, job(script(ds, "-n--", false, pool, 0), adv(1, 0)))
 				}
+			}
+		}
+	}
+	// seven queued futures - three near ones (1,2,3 ms, in every order) interleaved in every way with four far ones
+	// (30..60 ms) - and one of them cancelled right away: the heap must stay a heap wherever the cancelled one sat, i.e.
+	// every other future still starts when it is due (no clock deviations, callbacks return at once)
+	nearOrders := tuplesPerm([]time.Duration{ms, 2 * ms, 3 * ms})
+	far := []time.Duration{30 * ms, 40 * ms, 50 * ms, 60 * ms}
+	for mask := 0; mask < 1<<7; mask++ {
+		if popcount(mask) != 3 {
+			continue
+		}
+		for _, near := range nearOrders {
+			ds := make([]time.Duration, 7)
+			ni, fi := 0, 0
+			for i := range ds {
+				if mask&(1<<i) != 0 {
+					ds[i] = near[ni]
+					ni++
+				} else {
+					ds[i] = far[fi]
+					fi++
+				}
+			}
+			for c := range ds {
+				plan := []byte("-------")
+				plan[c] = 'n'
+				sc := script(ds, string(plan), false, 2, 0)
+				sc.MaxLate = 100 * time.Microsecond
+				jobs = append(jobs, job(sc, adv(0, 0)))
 			}
 		}
 	}
